@@ -47,7 +47,8 @@ _tlc_depth = re.compile(r"The depth of the complete state graph search is (\d+)"
 
 
 def tlc(wd, module, cfg=None, workers=None, timeout=900, simulate=None, depth=None, seed=None,
-        coverage=False, deque=False, extra=(), allow_violation=False, heap=None, outfile=None, keep_prefixes=('<<"CASE"', '<<"VIOL"', '<<"DIVERGE"')):
+        coverage=False, deque=False, extra=(), allow_violation=False, heap=None, outfile=None, keep_prefixes=('<<"CASE"', '<<"VIOL"', '<<"DIVERGE"'),
+        budget=False):
     """Run TLC in wd. Returns dict(ok, out, generated, distinct, depth, violated)."""
     meta = tempfile.mkdtemp(prefix="meta.", dir=wd)
     cmd = ["java", "-XX:+UseParallelGC", "-Xss512m"]
@@ -88,8 +89,10 @@ def tlc(wd, module, cfg=None, workers=None, timeout=900, simulate=None, depth=No
     except subprocess.TimeoutExpired as e:
         subprocess.run(["pkill", "-f", "tlc2.TL[C].*" + re.escape(meta)], check=False)
         out = (e.stdout or b"").decode(errors="replace") if isinstance(e.stdout, bytes) else (e.stdout or "")
-        if simulate:   # simulation runs are bounded by the timeout on purpose
+        if simulate or budget:   # simulation runs - and exhaustive runs given a time budget (thorough tier) - are bounded by the timeout on purpose
             rc = 0
+            if budget:
+                out += f"\nBUDGET: exploration stopped after {timeout}s\n"
         else:
             raise Inconclusive(f"TLC timeout after {timeout}s on {module}")
     finally:
@@ -102,11 +105,17 @@ def tlc(wd, module, cfg=None, workers=None, timeout=900, simulate=None, depth=No
     m = _tlc_depth.findall(out)
     if m:
         res["depth"] = int(m[-1])
+    res["partial"] = "BUDGET: exploration stopped" in out
+    if res["partial"]:
+        # the last progress line: "Progress(9) at ...: 120,759,218 states generated (...), 33,106,286 distinct states found (...), ..."
+        pm = re.findall(r"Progress\((\d+)\) at [^:]+:\d+:\d+: ([\d,]+) states generated .*?, ([\d,]+) distinct states found", out)
+        if pm:
+            res["depth"], res["generated"], res["distinct"] = int(pm[-1][0]), int(pm[-1][1].replace(",", "")), int(pm[-1][2].replace(",", ""))
     mv = re.search(r"Error: Invariant (\S+) is violated|Error: Action property (\S+) is violated|Error: Temporal properties were violated", out)
     if mv:
         res["violated"] = mv.group(1) or mv.group(2) or "temporal"
     hard = re.search(r"TLC threw an unexpected exception|Error: .*(evaluat|Parsing or semantic|attempted to|was not|not a legal state|not completely specified|Unknown operator|is not a)|StackOverflowError|OutOfMemoryError|Fatal error", out)
-    if not hard and not mv and not simulate and not re.search(r"states generated", out):
+    if not hard and not mv and not simulate and not re.search(r"states generated", out) and not (budget and "BUDGET:" in out):
         hard = re.search(r"Error: .*", out) or re.search(r".", "x")      # a model-checking run that reports no state count did not run
     res["ok"] = (rc == 0 and not mv and not hard)
     if hard and not mv:
